@@ -436,6 +436,73 @@ pub fn docs_yaml(docs: &[Doc]) -> String {
 /// The merge the statement of C17 prescribes: documents whose `path` occurs in the file's
 /// path, shortest first; later documents override scalars; rules concatenated.
 /// `None` for ties in path length between documents that both set something (order unspecified).
+fn fold_docs(matched: &[&Doc]) -> Option<Doc> {
+    let mut it = matched.iter();
+    let first: Doc = (*it.next()?).clone();
+    Some(it.fold(first, |prev, next| Doc {
+        path: next.path.clone(),
+        encoding: next.encoding.clone().or(prev.encoding),
+        account: next.account.clone().or(prev.account),
+        account_type: next.account_type.clone().or(prev.account_type),
+        operator: next.operator.clone().or(prev.operator),
+        commodity: if next.commodity.is_some() { next.commodity.clone() } else { prev.commodity },
+        default_conversion: if next.commodity.is_some() { next.default_conversion.clone() } else { prev.default_conversion },
+        format: next.format.clone().or(prev.format),
+        rewrite: prev.rewrite.iter().chain(next.rewrite.iter()).cloned().collect(),
+    }))
+}
+
+/// Every merge the statement admits: shortest `path` first, documents with equally long
+/// paths in any order (the statement does not rank them, but each of them takes part).
+/// Empty when no document applies; `None` when there are more than 24 admissible orders.
+pub fn merge_candidates(docs: &[Doc], file: &str) -> Option<Vec<Doc>> {
+    let mut matched: Vec<&Doc> = docs.iter().filter(|d| file.contains(&d.path)).collect();
+    matched.sort_by_key(|d| d.path.len());
+    if matched.is_empty() {
+        return Some(Vec::new());
+    }
+    let mut orders: Vec<Vec<&Doc>> = vec![Vec::new()];
+    let mut i = 0;
+    while i < matched.len() {
+        let mut j = i;
+        while j < matched.len() && matched[j].path.len() == matched[i].path.len() {
+            j += 1;
+        }
+        let group: Vec<&Doc> = matched[i..j].to_vec();
+        let perms = permutations(&group);
+        if orders.len() * perms.len() > 24 {
+            return None;
+        }
+        let mut next = Vec::new();
+        for o in &orders {
+            for p in &perms {
+                let mut v = o.clone();
+                v.extend(p.iter().cloned());
+                next.push(v);
+            }
+        }
+        orders = next;
+        i = j;
+    }
+    Some(orders.iter().filter_map(|o| fold_docs(o)).collect())
+}
+
+fn permutations<'a>(items: &[&'a Doc]) -> Vec<Vec<&'a Doc>> {
+    if items.len() <= 1 {
+        return vec![items.to_vec()];
+    }
+    let mut out = Vec::new();
+    for i in 0..items.len() {
+        let mut rest = items.to_vec();
+        let x = rest.remove(i);
+        for mut p in permutations(&rest) {
+            p.insert(0, x);
+            out.push(p);
+        }
+    }
+    out
+}
+
 pub fn merge_docs(docs: &[Doc], file: &str) -> Option<Option<Doc>> {
     let mut matched: Vec<&Doc> = docs.iter().filter(|d| file.contains(&d.path)).collect();
     matched.sort_by_key(|d| d.path.len());
